@@ -35,7 +35,7 @@ LMent(L)  == [m \in AllMacs |->
    IF \E i \in 1..Len(L) : L[i].m = m
    THEN LET e == L[CHOOSE i \in 1..Len(L) : L[i].m = m] IN [cap |-> e.cap, offer |-> e.offer]
    ELSE Nil]
-LFile(L)  == {[k |-> L[i].k, mac |-> L[i].mac, ip |-> L[i].ip, xid |-> L[i].xid] : i \in 1..Len(L)}
+LFile(L)  == {[k |-> L[i].k, mac |-> L[i].mac, ip |-> L[i].ip, xid |-> L[i].xid, cur |-> L[i].cur] : i \in 1..Len(L)}
 LReplies(L) == [i \in 1..Len(L) |-> [t |-> L[i].t, mac |-> L[i].mac, xid |-> L[i].xid, yi |-> L[i].yi, mask |-> L[i].mask,
                                      router |-> L[i].router, dns |-> L[i].dns, sid |-> L[i].sid, lt |-> L[i].lt, mbr |-> L[i].mbr]]
 
